@@ -86,6 +86,13 @@ def install_axioms(e: Exec, lemma_results=None):
     for cl in e.R.axioms:
         e.ctx.axioms.append(e.eval_clause(st, cl, {}))
     if e.ctx.finite:
+        # the axioms must be satisfiable inside the finite scope, otherwise every finite-scope answer is vacuous
+        s = z3.Solver()
+        s.set('timeout', 20000)
+        for a in e.ctx.axioms:
+            s.add(a)
+        if s.check() == z3.unsat:
+            raise RuntimeError('spec axioms are unsatisfiable in the finite scope (enlarge R.scope)')
         return
     for nm, d in e.R.deffuncs.items():
         pts = [parse_type(t) for t in d['params'].values()]
